@@ -18,8 +18,17 @@ def slot(default="ws"):
     return os.environ.get("VERIF_SLOT", default)
 
 
+def c01(res, tier, a):
+    from checks import et
+    with Scratch(slot()) as sc:
+        ws.inject(sc)
+        drv = ws.Driver(ws.build_driver(sc))
+        cov = et.run_pipeline(res, tier, sc, drv)
+        res.coverage.update(cov)
+
+
 def c02(res, tier, a):
-    comps = _components(a, ["kernels"])
+    comps = _components(a, ["kernels", "et"])
     with Scratch(slot()) as sc:
         ws.inject(sc)
         drv = ws.Driver(ws.build_driver(sc))
@@ -28,9 +37,12 @@ def c02(res, tier, a):
             k = kernels.Kernels(sc, drv, res, tier, props=("C02",))
             k.load(ws)
             cov.update(k.run_all())
+        if "et" in comps:
+            from checks import et
+            cov.update(et.run_mir_opt(res, tier, sc, drv))
         res.coverage.update(cov)
         res.coverage.setdefault("programs", 0)
-        res.coverage.setdefault("disagreements_checked", cov.get("kernel_obligations", 0))
+        res.coverage["disagreements_checked"] = cov.get("kernel_obligations", 0) + cov.get("et", {}).get("pairs", 0)
 
 
 def c03(res, tier, a):
@@ -48,6 +60,23 @@ def c03(res, tier, a):
         res.coverage["transitions"] = max(1, cov.get("kernel_obligations", 0) + len(cov.get("kernels_encoded", [])))
         res.coverage["traces_validated_against_impl"] = cov.get("translator_validation_points", 0)
         res.coverage["explanation"] = "states = MIR paths of the encoded kernels; transitions = panic-reachability obligations + kernels; every MIR assert/panic block is an obligation"
+
+
+def c04(res, tier, a):
+    from checks import c04 as m
+    comps = _components(a, ["ops"])
+    with Scratch(slot()) as sc:
+        ws.inject(sc)
+        drv = ws.Driver(ws.build_driver(sc))
+        cov = {}
+        if "ops" in comps:
+            k = kernels.Kernels(sc, drv, res, tier, props=())
+            cov.update(m.run_ops(res, tier, drv, k.constructed_operators()))
+        res.coverage.update(cov)
+        res.coverage["states"] = max(1, cov.get("operator_obligations", 0))
+        res.coverage["transitions"] = max(1, cov.get("operator_obligations", 0))
+        res.coverage["traces_validated_against_impl"] = 0
+        res.coverage["explanation"] = "one obligation per operator over all pairs of i32 operands"
 
 
 def c06(res, tier, a):
@@ -73,8 +102,10 @@ def c17(res, tier, a):
 
 CHECKS = {
     "C17": ("model_checking", c17),
+    "C04": ("model_checking", c04),
     "C06": ("model_checking", c06),
     "C07": ("other", c07),
+    "C01": ("translation_validation", c01),
     "C02": ("translation_validation", c02),
     "C03": ("model_checking", c03),
 }
